@@ -33,12 +33,31 @@ Inductive deref_ans := DDoc (j : json) | DNotJson | DFailed.
 Definition dereference (i : string) : prog deref_ans :=
   x <- call (EDeref i) ;; ret (match x with AJson j => DDoc j | ANotJson => DNotJson | _ => DFailed end).
 
+(* streams.Serialize rebuilds the top-level @context (removed here: the harness removes it from what it
+   records) and deletes @context from child objects, through object nesting only *)
+Fixpoint clean_ctx (fuel : nat) (j : json) : json :=
+  match fuel with
+  | O => j
+  | S f =>
+      match j with
+      | JObj m => JObj (map (fun kv => (fst kv, match snd kv with JObj _ => clean_ctx f (jremove "@context" (snd kv)) | v => v end)) m)
+      | _ => j
+      end
+  end.
+Fixpoint jdepth1 (j : json) : nat :=
+  match j with
+  | JArr l => S (fold_right (fun x acc => Nat.max (jdepth1 x) acc) 0 l)
+  | JObj m => S (fold_right (fun kv acc => Nat.max (jdepth1 (snd kv)) acc) 0 m)
+  | _ => 0
+  end.
+Definition streams_serialize (v : json) : json := clean_ctx (S (jdepth1 v)) (jremove "@context" v).
+
 Definition batch_deliver (payload : json) (rcpts : list string) : prog (res unit) :=
-  x <- call (EBatchDeliver (canon (jremove "@context" payload)) rcpts) ;; match x with AOk => ok tt | _ => fail EGeneric end.
+  x <- call (EBatchDeliver (canon (streams_serialize payload)) rcpts) ;; match x with AOk => ok tt | _ => fail EGeneric end.
 
 Definition write_header (n : nat) : prog unit := call (EWriteHeader n) ;;; ret tt.
 Definition set_header (k v : string) : prog unit := call (ESetHeader k v) ;;; ret tt.
-Definition write_body (b : json) : prog unit := call (EWrite (canon (jremove "@context" b))) ;;; ret tt.
+Definition write_body (b : json) : prog unit := call (EWrite (canon (streams_serialize b))) ;;; ret tt.
 Definition now : prog Z := x <- call ENow ;; ret (match x with AZ z => z | _ => 0%Z end).
 
 (* for x in l { if err := f x; err != nil { return err } } *)
